@@ -273,6 +273,18 @@ impl Ctx {
     }
 }
 
+/// Runs `f` under catch_unwind, returning the panic site (location, message) on unwind.
+pub fn guarded<R>(f: impl FnOnce() -> R) -> Result<R, (String, String)> {
+    match catch_unwind(AssertUnwindSafe(f)) {
+        Ok(v) => Ok(v),
+        Err(_) => {
+            let (loc, msg) = LAST_PANIC.lock().unwrap().take().unwrap_or_default();
+            let loc = loc.strip_prefix("/repo/").unwrap_or(&loc).to_string();
+            Err((loc, msg))
+        }
+    }
+}
+
 pub fn panic_sig(loc: &str, msg: &str) -> String {
     let file = loc.rsplit_once(':').map(|x| x.0).unwrap_or(loc);
     format!("panic@{file}:{}", norm_msg(msg))
